@@ -14,7 +14,7 @@ PLAN = {
 }
 LEVEL = 'exploration'
 TECHNIQUE = "runtime monitoring: the closed kind(value) x kind(target) x context matrix is enumerated on the real from_data; verdicts come from a hand-written kind table cross-checked against the reference model"
-RULE = ("every cell of 14 value kinds x 27 target kinds x 11 embedding contexts (top level, list/set element, mapping value/key, "
+RULE = ("every cell of 14 value kinds x 27 target kinds x 12 embedding contexts (top level, list/set element, mapping value/key, "
         "tuple slot, union member, Optional, Annotated, dataclass field in struct and tuple layout) with 2-5 representative "
         "values per kind is enumerated in every run (the matrix is exhaustive; the representatives are not); the thorough tier "
         "adds random compositions of contexts to depth 5. A cell is must_reject / must_accept / by-content (decided by the "
@@ -118,6 +118,10 @@ def contexts():
         'annotated': (lambda T: Ty('cond', [T], conds=[ALWAYS]), lambda v: v),
         'dataclass-field-struct': (lambda T: _dc([FieldM('inner_val', T)]), lambda v: {'inner_val': v}),
         'dataclass-field-tuple': (lambda T: _dc([FieldM('inner_val', T)], in_format=('tuple',)), lambda v: [v]),
+        # a field that is not bound positionally (init=False) sits before the slot: positions must still line up
+        'dataclass-field-tuple-after-uninitialised': (
+            lambda T: _dc([FieldM('alpha', Ty('str')), FieldM('zz', Ty('any'), 'val', 0, init=False), FieldM('inner_val', T)], in_format=('tuple',)),
+            lambda v: ['s', v]),
     }
 
 
@@ -127,8 +131,10 @@ def run(ctx):
     cells = [(vk, tk) for vk in VALUES for tk in TG]
     disagreements = []
 
+    spell = ctx.rng('spellings')
+
     def check(vk, tk, path, ty, v, base_verdict, case_id, sub):
-        T, err = build_type(ty)
+        T, err = build_type(ty, spell)     # random spellings: many of them are short-lived alias objects
         if err is not None:
             ctx.count('type_build_failed')
             ctx.mark('type_build_errors', f"{path}|{tk}: {type(err).__name__}: {str(err)[:80]}")
@@ -223,6 +229,6 @@ def post_merge(counters, sets, tier):
     want = len(VALUES) * len(targets())
     if len(sets.get('cells', ())) < want:
         reasons.append(f"only {len(sets.get('cells', ()))} of {want} matrix cells were visited")
-    if len([c for c in sets.get('contexts', ()) if '>' not in c]) < 11:
+    if len([c for c in sets.get('contexts', ()) if '>' not in c]) < 12:
         reasons.append("not every embedding context was visited")
     return reasons
